@@ -64,22 +64,54 @@ class FStr(ast.NodeTransformer):
         return ast.copy_location(ast.Call(ast.Name("__symx_fstr", ast.Load()), args, []), node)
 
 
-def rewrite(owner, name, if_conversion=False, fstrings=False):
+class StripAnnotations(ast.NodeTransformer):
+    def visit_FunctionDef(self, node):
+        self.generic_visit(node)
+        node.returns = None
+        for a in node.args.posonlyargs + node.args.args + node.args.kwonlyargs + [x for x in (node.args.vararg, node.args.kwarg) if x]:
+            a.annotation = None
+        return node
+
+    def visit_AnnAssign(self, node):
+        self.generic_visit(node)
+        if node.value is None:
+            return None
+        return ast.copy_location(ast.Assign([node.target], node.value), node)
+
+
+class IfExpConv(ast.NodeTransformer):
+    """a if c else b  ->  __symx_ifexp(c, lambda: a, lambda: b)   (lazy: a concrete condition evaluates one arm only)"""
+    def __init__(self):
+        self.n = 0
+
+    def visit_IfExp(self, node):
+        self.generic_visit(node)
+        self.n += 1
+        lam = lambda e: ast.Lambda(ast.arguments(posonlyargs=[], args=[], kwonlyargs=[], kw_defaults=[], defaults=[]), e)
+        return ast.copy_location(ast.Call(ast.Name("__symx_ifexp", ast.Load()), [node.test, lam(node.body), lam(node.orelse)], []), node)
+
+
+def rewrite(owner, name, if_conversion=False, fstrings=False, ifexp=False):
     """Recompile owner.name from its current source with the requested rewrites. Returns (restore, counts)."""
     fn = owner.__dict__[name] if isinstance(owner, type) else getattr(owner, name)
     wrapper = type(fn) if isinstance(fn, (staticmethod, classmethod, property)) else None
     raw = fn.__func__ if isinstance(fn, (staticmethod, classmethod)) else (fn.fget if isinstance(fn, property) else fn)
     tree = ast.parse(textwrap.dedent(inspect.getsource(raw)))
     tree.body[0].decorator_list = []
+    tree = StripAnnotations().visit(tree)      # annotations are evaluated at def time and may mention rebound builtins (int, float)
     counts = {}
     if if_conversion:
         t = IfConv(); tree = t.visit(tree); counts["if"] = t.n
     if fstrings:
         t = FStr(); tree = t.visit(tree); counts["fstr"] = t.n
+    if ifexp:
+        t = IfExpConv(); tree = t.visit(tree); counts["ifexp"] = t.n
     tree = ast.fix_missing_locations(tree)
     g = raw.__globals__
     g["__symx_ite"] = ite
     g["__symx_fstr"] = fstr
+    from .real import num_ifexp
+    g["__symx_ifexp"] = num_ifexp
     ns = {}
     exec(compile(tree, f"<symx rewrite of {raw.__qualname__}>", "exec"), g, ns)
     new = ns[raw.__name__]
